@@ -374,8 +374,22 @@ class Effects:
             # local variable: alias of long-lived state?
             aliased = None
             for st in walk_own(g.node):
+                # `for x in (self, other): x.attr.sort()`: the loop variable stands for each element of the display
+                if isinstance(st, (ast.For, ast.AsyncFor)) and isinstance(st.target, ast.Name) and st.target.id == name and \
+                        isinstance(st.iter, (ast.Tuple, ast.List)):
+                    for el in st.iter.elts:
+                        if isinstance(el, (ast.Name, ast.Attribute)) and not (isinstance(el, ast.Name) and el.id == name):
+                            r_ = self.receiver_state(el if isinstance(el, ast.Attribute) else ast.Attribute(value=el, attr='_', ctx=ast.Load()), g)
+                            if r_:
+                                return r_
+                    return None
+            for st in walk_own(g.node):
                 if isinstance(st, ast.Assign) and any(isinstance(t, ast.Name) and t.id == name for t in st.targets):
                     v = st.value
+                    if isinstance(v, ast.Call) and (dotted(v.func) or '').rsplit('.', 1)[-1] in ('get_meta', 'set_meta') and v.args:
+                        # the metadata dictionary kept on a function / method object (pjrpc.server.utils): it belongs to that object,
+                        # which is registered once and lives as long as the registry
+                        return f'meta:{norm(v.args[0])[:40]}'
                     if isinstance(v, (ast.Attribute, ast.Subscript, ast.Name)) or \
                             (isinstance(v, ast.BoolOp) and isinstance(v.values[0], (ast.Attribute, ast.Subscript, ast.Name, ast.Call))):
                         v0 = v.values[0] if isinstance(v, ast.BoolOp) else v
@@ -449,6 +463,10 @@ class Effects:
                     v = st.value
                     if isinstance(v, ast.BoolOp):
                         v = v.values[0]
+                    if isinstance(v, ast.Call) and (dotted(v.func) or '').rsplit('.', 1)[-1] in ('get_meta', 'set_meta') and v.args:
+                        # the metadata dictionary kept on a function / method object (pjrpc.server.utils): it belongs to that object,
+                        # which is registered once and lives as long as the registry
+                        return f'meta:{norm(v.args[0])[:40]}'
                     if isinstance(v, ast.Call) and isinstance(v.func, ast.Attribute) and v.func.attr in ('get', 'setdefault'):
                         v = v.func.value
                     if isinstance(v, (ast.Attribute, ast.Subscript)):
